@@ -21,7 +21,7 @@ from ..mir import const_int, op_place
 from ..sym import Explorer, N, is_const, show, walk
 from ..wrules import model, w1, w3
 
-TECHNIQUE = "static analysis: per-component provenance of the tuple unpackers (operator trees over MIR), binrw layout rules vs reference, bit-mask tables parsed from the declarations, expression provenance of constant slicing and selector arithmetic, who-may-write of the selector table"
+TECHNIQUE = "static analysis: per-component provenance of the tuple unpackers (operator trees over MIR), binrw layout rules vs reference, bit-mask tables parsed from the declarations, expression provenance of constant slicing and selector arithmetic, who-may-write of the selector table; path-condition evaluation of the table-kind dispatch for all 256 byte values; declaration-order rule for the variable-length shader-package records"
 TRUSTED = ["pv/wire.py binrw model", "spec/layouts.txt (Lumina MtrlStructs / Penumbra colour tables)", "reference bit positions embedded in this rule (Penumbra)", "rustc nightly MIR"]
 
 REF_LEGACY_DYE = {"diffuse": 0x01, "specular": 0x02, "emissive": 0x04, "gloss": 0x08, "specular_strength": 0x10}
